@@ -519,6 +519,14 @@ OnVdrop(m, e) ==
 OnDropped(m, e) ==
   LET b == V(\E c \in Kids(m) : m.ch[c].drops = 0, "C02",
              <<"a child outlived the combinator it was given to", {c \in Kids(m) : m.ch[c].drops = 0}>>)
+           \* C05: after a failure the values the siblings had produced are dropped (neither returned nor kept)
+           \cup V(m.fam = "try_join" /\ m.errSeen /\ \E v \in m.prod : v \notin m.vret /\ v \notin m.vdrp,
+                  "C05", <<"a value produced by a sibling of the failed child was not dropped with try_join",
+                           {v \in m.prod : v \notin m.vret /\ v \notin m.vdrp}>>)
+           \* C09: items taken from an input and never matched into a row are dropped, not kept
+           \cup V(m.fam = "zip" /\ \E v \in m.prod : v \notin m.vret /\ v \notin m.vdrp,
+                  "C09", <<"an unmatched item was not dropped with the zip stream",
+                           {v \in m.prod : v \notin m.vret /\ v \notin m.vdrp}>>)
       \* C06: losers are dropped unfinished with the race future (never polled after the win is C06 at cpoll)
       arm == A(\E c \in Kids(m) : m.ch[c].ans \in {"pending", "new", "some"}, "C02.drop_midflight")
              \cup A(\E v \in m.prod : v \notin m.vret, "C02.unreturned_values")
